@@ -531,6 +531,10 @@ func (e *Engine) evalAtomic(c *Case, ref, run Outcome) []string {
 	for _, d := range dropped {
 		named := false
 		for _, l := range stderrLines(run.Stderr) {
+			// informational lines (the configuration dump lists every selected type, in map order) are not diagnostics
+			if strings.Contains(l, "level=info") || strings.Contains(l, "level=debug") || strings.Contains(l, "level=trace") {
+				continue
+			}
 			if !refLines[l] && wordIn(l, d) {
 				named = true
 			}
